@@ -22,7 +22,8 @@ RULE = ("histories over events {block directive in +-SKIP, +-REQUIRES(met), +-RE
         "directive {none or any of the ten}; all histories up to length L over a 20-event alphabet are enumerated "
         "(exhaustive=true for that sub-space), then random histories of length 5..12 over the full alphabet; every "
         "history is also run with --options defaults and compared with the model started in that state; block directives "
-        "are followed by nothing / blank prompt lines / a plain comment; a second family of random histories uses "
+        "are followed by nothing / blank prompt lines / a plain comment; directive comments are written in the accepted "
+        "spellings (xdoctest: / doctest: prefix, blanks, lower-case name, '+' left out, two directives in one comment); a second family of random histories uses "
         "conditions that are facts about the process when the directive is reached (--flag on sys.argv, env:VAR[==|!=], "
         "platform / implementation / version tags) from seven base worlds, with statements that change the world.  Non-trivial = the "
         "history contains a directive and a statement; distinct by rendered text + defaults")
@@ -192,8 +193,8 @@ def run_model(events, defaults=(), base=None):
     return out, fail, states
 
 
-def stmt_lines(i, form, inline, op=None):
-    c = '  # xdoctest: %s' % inline if inline else ''
+def stmt_lines(i, form, inline, op=None, plain=False):
+    c = '  ' + spell(inline, i, plain) if inline else ''
     if form == 'one':
         return ['>>> quiet(%d)%s' % (i, c)]
     if form == 'world':
@@ -236,17 +237,50 @@ def stmt_lines(i, form, inline, op=None):
     raise KeyError(form)
 
 
-def render(events):
+SPELL_PREFIX = ['# xdoctest: ', '# xdoctest: ', '# doctest: ', '#xdoctest:', '#   xdoctest:   ', '# xdoctest:']
+
+
+def spell(d, salt, plain=False):
+    """the comment that carries directive d, in one of the accepted spellings (prefix, blanks, case of the name, a '+'
+    left out); chosen by a checksum of (d, salt) so that a history always renders to the same text"""
+    import zlib
+    if plain:
+        return '# xdoctest: ' + d
+    h = zlib.crc32(('%s|%s' % (d, salt)).encode())
+    pre = SPELL_PREFIX[h % len(SPELL_PREFIX)]
+    h //= 7
+    sign, body = d[0], d[1:]
+    name, paren, rest = body.partition('(')
+    if h % 4 == 0:
+        name = name.lower()
+    h //= 4
+    if sign == '+' and h % 5 == 0:
+        sign = ''
+    return pre + sign + name + paren + rest
+
+
+def render(events, plain=False):
     L = []
     i = 0
-    for e in events:
+    k = 0
+    while k < len(events):
+        e = events[k]
         if e[0] == 'block':
-            L.append('>>> # xdoctest: %s' % e[1])
+            text = spell(e[1], k, plain)
+            nxt = events[k + 1] if k + 1 < len(events) else None
+            if (not plain and nxt is not None and nxt[0] == 'block' and not (len(e) > 2 and e[2])
+                    and (len(e[1]) + len(nxt[1]) + k) % 3 == 0):
+                # two block directives in one comment, comma separated: applied in order
+                text += ', ' + spell(nxt[1], k + 1, plain).split(':', 1)[1].strip()
+                e = nxt
+                k += 1
+            L.append('>>> ' + text)
             if len(e) > 2 and e[2]:
                 L += BLOCK_TAILS[e[2]]
         else:
             i += 1
-            L += stmt_lines(i, e[1], e[2], e[3] if len(e) > 3 else None)
+            L += stmt_lines(i, e[1], e[2], e[3] if len(e) > 3 else None, plain=plain)
+        k += 1
     return '\n'.join(L)
 
 
@@ -375,6 +409,15 @@ def _check_history(ctx, events, defaults, origin, base):
         ctx.cell('defaults:' + defaults[0])
     for c in dyn_cells:
         ctx.cell(c)
+    import re as _re
+    if '# doctest: ' in doc:
+        ctx.cell('spelling:doctest-prefix')
+    if _re.search(r'# ?x?doctest: ?[+-]?[A-Za-z_]+(\([^)]*\))?, ', doc):
+        ctx.cell('spelling:two-directives-in-one-comment')
+    if _re.search(r'doctest: *[+-]?[a-z]', doc):
+        ctx.cell('spelling:lower-case-name')
+    if _re.search(r'doctest: *[A-Za-z]', doc):
+        ctx.cell('spelling:no-sign')
     if base is not None and any(e[0] == 'stmt' and e[1] == 'world' and i_ran for e, i_ran in world_events(events, exp_out)):
         ctx.cell('world-changed-inside-the-doctest')
     if ctx.shard == 0 and origin == 'random':
@@ -428,7 +471,9 @@ def required_cells(tier):
     cells = ['state:skip=0,req=0', 'state:skip=1,req=0', 'state:skip=0,req=1', 'state:skip=1,req=1',
              'event:block', 'event:inline', 'defaults:+SKIP', 'defaults:+IGNORE_WHITESPACE', 'defaults:-SKIP',
              'defaults:+REQUIRES(%s)' % UNMET_A, 'defaults:+REQUIRES(module:os)', 'f9-probe-behaves',
-             'cond:flag', 'cond:env:XV_E', 'cond:tag', 'world-changed-inside-the-doctest', 'defaults:+REQUIRES(--xvf)']
+             'cond:flag', 'cond:env:XV_E', 'cond:tag', 'world-changed-inside-the-doctest', 'defaults:+REQUIRES(--xvf)',
+             'spelling:doctest-prefix', 'spelling:two-directives-in-one-comment', 'spelling:lower-case-name',
+             'spelling:no-sign']
     cells += ['form:' + f for f in FORMS] + ['blocktail:' + t for t in BLOCK_TAILS]
     return cells
 
